@@ -42,7 +42,12 @@ theorem inv3_step (o : Obj S N) {sh sh' : Sh S N} {pre post : List (Th o.WOp N)}
     · next heq => subst heq; exact ⟨hd, hs⟩
     · exact ⟨rfl, rfl⟩
   cases htr with
-  | startWrite w rest hu =>
+  | earlyReturn w rest hearly =>
+    refine ⟨fun c => cb3_frame (hcb c) rfl (fun hc => hc) rfl rfl rfl rfl rfl rfl, ?_, ?_⟩
+    · simp only; rw [forall_mid]
+      exact ⟨th3_idle _ rest, hoth _ (fun _ => ⟨rfl, rfl⟩)⟩
+    · exact caught_frame hcu (fun _ hc => hc) (by simp [todo]) (fun _ _ => ⟨rfl, rfl⟩)
+  | startWrite w rest hearly hu =>
     refine ⟨fun c => cb3_frame (hcb c) rfl (fun hc => hc) rfl rfl rfl rfl rfl rfl, ?_, ?_⟩
     · simp only; rw [forall_mid]
       exact ⟨⟨by simp [todo]⟩, hoth _ (fun _ => ⟨rfl, rfl⟩)⟩
